@@ -499,6 +499,30 @@ func c07OtherBackends(c *vfeng.Ctx) {
 			c.Class(fmt.Sprintf("htpasswd|accepted=%v", got), tc.user)
 		}
 	}
+	// entries the backend cannot evaluate (locked by overwriting the hash, truncated,
+	// impossible cost, another scheme, empty): no password whatsoever is accepted
+	{
+		good := vfBcrypt("some-password")
+		damaged := map[string]string{"locked": "$2y$05$LOCKED", "trunc": good[:len(good)-20], "cost99": "$2y$99$" + good[7:], "cost00": "$2y$00$" + good[7:],
+			"otherscheme": "{SHA}W6ph5Mm5Pz8GgiULbPgzG37mj9g=", "emptyhash": "", "garbage": "$2y$05$" + strings.Repeat("!", 53), "md5crypt": "$1$abcdefgh$G3nN5Yn4lXzBGEOoC0a7m."}
+		f, err := os.OpenFile(w.state.Config.Base.HtpasswdFilename, os.O_APPEND|os.O_WRONLY, 0o600)
+		vfMust(err)
+		for u, h := range damaged {
+			fmt.Fprintf(f, "%s:%s\n", u, h)
+		}
+		f.Close()
+		for u, h := range damaged {
+			for _, pw := range []string{"some-password", "x", h, ""} {
+				r := w.Do(vfReq{Method: "POST", Path: "/api/v0/login", Form: url.Values{"username": {u}, "password": {pw}}}.Build())
+				c.Eval(1)
+				if r.Code == 200 && r.Cookie(authCookieName) != nil {
+					c.Violate("C07|htpasswd-verdict|loginHandler|unusable-entry", fmt.Sprintf("the htpasswd entry of %q is %q, which no password can match; the password %q was accepted", u, h, pw), map[string]interface{}{"backend": "htpasswd", "user": u})
+				} else {
+					c.Class("htpasswd|unusable-entry|refused", u)
+				}
+			}
+		}
+	}
 	w.Close()
 	// a backend with case-distinct accounts: the verdict that counts is the one for
 	// the NORMALISED name, at the login endpoint and wherever basic-auth is taken
@@ -565,7 +589,7 @@ func init() {
 	vfRegister(&vfeng.Check{
 		ID:    "C07",
 		Level: "model_checking",
-		Rule:  "explicit-state BFS with canonical-state deduplication over histories of {login with current/old/wrong/empty/other user's password via form or basic-auth and with a case variant of the name, directory all up / all down / first server down / second server down, password change, tick 1h/95h/97h, primary store up/outage (fault-injecting SQL driver), synchronisation (real copyDBIntoSQLite + cleanup), cache-row tampering: copy alice's row to bob, bump the expiry column, flip a byte} for two users on the real login handler, LDAP authenticator and storage layer, from the initial state (depth d) and from two non-initial states (alice cached 97 h ago; both users cached and synchronised; depth d-1); oracle = plain-map model of the directory and of both stores (signed subject, signed expiry, hashed password) compared on every transition for the verdict and for presence of the record in the stores; htpasswd and external-command backends are run once each",
+		Rule:  "explicit-state BFS with canonical-state deduplication over histories of {login with current/old/wrong/empty/other user's password via form or basic-auth and with a case variant of the name, directory all up / all down / first server down / second server down, password change, tick 1h/95h/97h, primary store up/outage (fault-injecting SQL driver), synchronisation (real copyDBIntoSQLite + cleanup), cache-row tampering: copy alice's row to bob, bump the expiry column, flip a byte} for two users on the real login handler, LDAP authenticator and storage layer, from the initial state (depth d) and from two non-initial states (alice cached 97 h ago; both users cached and synchronised; depth d-1); oracle = plain-map model of the directory and of both stores (signed subject, signed expiry, hashed password) compared on every transition for the verdict and for presence of the record in the stores; htpasswd (also: 8 entries no password can match x 4 passwords) and external-command backends are run once each",
 		Assumptions: []string{"the LDAP bind itself is stubbed at lib/authutil (seam inserted by verifgen): the wire protocol is out of scope", "refresh and eviction are demanded only while the primary store is reachable"},
 		Bounds: func(tier string) map[string]interface{} {
 			d := 4
@@ -598,7 +622,13 @@ func init() {
 				History []string `json:"history"`
 			}
 			if err := json.Unmarshal(raw, &h); err != nil || len(h.History) == 0 {
-				return false, "backend cases are re-run by the quick check"
+				// a case of the other backends: re-run that (short) part
+				cc := &vfeng.Ctx{Check: c.Check, Tier: c.Tier, NShards: 1, Res: &vfeng.Result{Classes: map[string]json.RawMessage{}, ClassCount: map[string]int64{}, Counters: map[string]int64{}, Sets: map[string][]string{}}}
+				c07OtherBackends(cc)
+				if len(cc.Res.Violations) > 0 {
+					return true, cc.Res.Violations[0].Key + " :: " + cc.Res.Violations[0].What
+				}
+				return false, "the other-backend cases were re-run without violation"
 			}
 			return vfeng.ReplayHistory(&c07Sys{}, h.History)
 		},
